@@ -8,6 +8,7 @@ CONSTANTS
   MaxH = 5
   ResetProvides = TRUE
   TakeEmptiesSlot = TRUE
+  KeyRaceDev = TRUE
   DropReturnsQueued = TRUE
 SPECIFICATION Spec
 INVARIANTS Safe
